@@ -113,7 +113,39 @@ func PairScenarios() []Scenario {
 	return out
 }
 
-func AllScenarios() []Scenario { return append(Scenarios(), PairScenarios()...) }
+// TripleScenarios: every unordered triple of six client programs, three threads (thorough tier).
+func TripleScenarios() []Scenario {
+	al := PairAlphabet()
+	pick := []int{0, 2, 3, 6, 5, 11} // mkdir child, write through a handle, remove file, rename parent, removeall parent, stat
+	setup := []ops.Op{{K: "mkdir", P: "/a"}, {K: "put", P: "/a/f", C: "x"}, {K: "put", P: "/g", C: "y"}}
+	reslot := func(p []ops.Op, slot int) []ops.Op {
+		q := append([]ops.Op(nil), p...)
+		for i := range q {
+			if strings.HasPrefix(q[i].K, "h") {
+				q[i].H = slot
+			}
+		}
+		return q
+	}
+	out := []Scenario{}
+	for x := 0; x < len(pick); x++ {
+		for y := x + 1; y < len(pick); y++ {
+			for z := y + 1; z < len(pick); z++ {
+				a, b, c := al[pick[x]], al[pick[y]], al[pick[z]]
+				out = append(out, Scenario{Name: fmt.Sprintf("R%d-%d-%d[%s || %s || %s]", pick[x], pick[y], pick[z], progString(a), progString(b), progString(c)), Cfg: rig.Config{RecordSize: 20}, Setup: setup,
+					Threads: [][]ops.Op{reslot(a, 0), reslot(b, 1), reslot(c, 2)}})
+			}
+		}
+	}
+	return out
+}
+
+func AllScenarios() []Scenario {
+	return append(append(Scenarios(), PairScenarios()...), TripleScenarios()...)
+}
+
+// QuickScenarios: hand-written + pairs (the triples are thorough-tier only).
+func QuickScenarios() []Scenario { return append(Scenarios(), PairScenarios()...) }
 
 func scenarioByName(n string) *Scenario {
 	for _, s := range AllScenarios() {
